@@ -392,6 +392,7 @@ func main() {
 	foldGrid()
 	allOpsDiff()
 	memEdgeDiff()
+	atomicWaitGrid()
 	if os.Getenv("HC01_ONLY") == "foldgrid" { // development aid
 		rep.Write(orc)
 		return
